@@ -168,6 +168,13 @@ func (t *timeline) masterAt(tk int64) int {
 	m := -1
 	for _, o := range t.obs {
 		if o.Tick > tk {
+			if m < 0 {
+				m = o.Master // before the first sample: the master seen first (warm-up)
+				if m >= 0 {
+					break
+				}
+				continue
+			}
 			break
 		}
 		m = o.Master
